@@ -8,6 +8,6 @@ for id in "$@"; do
     python3 tools/seed.py confirm /tmp/wt/$id "$d" > /tmp/wt/$id/SEEDED/$v/confirm.log 2>&1
     ok=$(python3 -c "import json;print(json.load(open('$d/confirmation.json')).get('confirmed'))" 2>/dev/null)
     echo "$id/$v confirmed=$ok"
-    if [ "$ok" = "True" ]; then python3 tools/seed.py keep "$d" "$id-$v" >/dev/null; fi
+    if [ "$ok" = "True" ]; then python3 tools/seed.py keep "$d" "$id-${SEED_TAG:-}$v" >/dev/null; fi
   done
 done
